@@ -7,3 +7,4 @@ INVARIANT InvA
 INVARIANT InvB
 INVARIANT InvSame
 INVARIANT InvC
+INVARIANT InvD
